@@ -3,6 +3,7 @@
 import json
 ids=[json.loads(l)['id'] for l in open('/verif/properties.jsonl')]
 claimed = {
+ "C14": ("real exporter with its refresh / connection-check goroutines in fake time: sends on and 1 ns around ticks, first template after the first tick, peer FIN, write error on a refresh datagram, concurrent repeated Close, sends after Close; tap + independent decoder + goroutine census (sim layer) and race detector (race layer)", "6 C14"),
  "C12": ("1-8 raw clients over tcp / udp / tls against the real Start()/Stop() path under the seeded baton scheduler with preemptions (sim layer) and under the race detector (race layer); stalling consumer, abrupt closes, Stop during traffic; per-connection order / exactly-once model, connection count, Stop liveness in simulated time, goroutine + socket census", "6 C12"),
  "C13": ("2-4 tasks on one real AggregationProcess under the seeded baton scheduler with preemptions inside library methods (sim layer) and as real goroutines under the race detector (race layer); invoke/return history checked with porcupine against the sequential model; worker-pool member; map/heap bijection after the run", "6 C13"),
  "C10": ("real collector on a simulator-owned clock (clock/timer seam): timer firing and callback execution are separate plan operations placed anywhere relative to template / refresh / replace / bad-template / data traffic; TTL model + timer census after every operation; second member with the library's real clock inside the bubble", "6 C10"),
